@@ -7,6 +7,8 @@ import time
 VERIF = os.path.dirname(os.path.dirname(os.path.abspath(__file__)))
 REPO = os.environ.get('SIGTOOLS_REPO', '/repo')
 GUARD = 'SIGTOOLS_VERIF'
+# where evidence/ and replays/ are written; redirected only when a seeded change is tried in a scratch checkout (tools/try_seeded.py)
+OUT = os.environ.get('VERIF_OUT', VERIF)
 
 
 def use_repo():
@@ -85,7 +87,7 @@ class Check:
                 print('KNOWN-FINDING: property=%s %s (key=%s, %d cases this run)' % (
                     self.pid, k['what'], k['key'], len(matched[k['key']])))
         rc = 0
-        replay_dir = os.path.join(VERIF, 'replays')
+        replay_dir = os.path.join(OUT, 'replays')
         printed = 0
         for f in violations:
             rc = 1
@@ -121,8 +123,8 @@ class Check:
         ev = {'property_id': self.pid, 'tier': self.tier, 'seed': self.seed, 'level': self.level,
               'coverage': cov, 'assumptions': self.assumptions, 'wall_s': round(time.time() - self.t0, 2),
               'violations': len(violations)}
-        os.makedirs(os.path.join(VERIF, 'evidence'), exist_ok=True)
-        with open(os.path.join(VERIF, 'evidence', self.pid + '.json'), 'w') as fh:
+        os.makedirs(os.path.join(OUT, 'evidence'), exist_ok=True)
+        with open(os.path.join(OUT, 'evidence', self.pid + '.json'), 'w') as fh:
             json.dump(ev, fh, indent=1, default=repr)
         print('%s tier=%s seed=%d: %d evaluations, %d distinct non-trivial, %d states, %d trace events validated, '
               '%d violations, %d known-finding cases, %.1fs' % (
